@@ -284,6 +284,7 @@ func report(o opts, s *prep.Scratch, m *merged, t0 time.Time) int {
 	}
 	sort.Strings(sigs)
 	newViol := 0
+	var notReproduced []string
 	known := 0
 	repDir := filepath.Join(verifDir, "replays")
 	_ = os.MkdirAll(repDir, 0755)
@@ -305,7 +306,10 @@ func report(o opts, s *prep.Scratch, m *merged, t0 time.Time) int {
 			continue
 		}
 		if code != 1 || !(strings.Contains(outp, "REPRODUCED") || strings.Contains(outp, "NONDETERMINISTIC")) || (strings.Contains(outp, "NOT-REPRODUCED") && !strings.Contains(outp, "NONDETERMINISTIC")) {
-			fatal2("violation %s (%s) did not reproduce from its replay file %s in a fresh process:\n%s", o.prop, sig, path, outp)
+			// not believed, never a VIOLATION; if nothing else reproduces either, the check ends with exit 2
+			notReproduced = append(notReproduced, fmt.Sprintf("violation %s (%s) did not reproduce from its replay file %s in a fresh process:\n%s", o.prop, sig, path, tailStr(outp, 1500)))
+			fmt.Printf("NOTE: %s %s not counted: it did not reproduce in a fresh process [replay=%s]\n", o.prop, sig, path)
+			continue
 		}
 		status, why := confirmReal(s, v)
 		if status == "refuted" {
@@ -374,6 +378,9 @@ func report(o opts, s *prep.Scratch, m *merged, t0 time.Time) int {
 		o.prop, st.Worlds, st.Builds, len(m.distinct), newViol, known, wall)
 	if newViol > 0 {
 		return 1
+	}
+	if len(notReproduced) > 0 && known == 0 {
+		fatal2("%s", strings.Join(notReproduced, "\n"))
 	}
 	return 0
 }
